@@ -819,7 +819,8 @@ pub fn supervise<P: Property>(p: &P, opts: &RunOpts) -> i32 {
             id: id.to_string(),
             index: i,
             seed: opts.seed,
-            cases: per,
+            // known-domain workers are secondary: a third of a strict worker's share
+            cases: if i < known_domain_workers { (per / 3).max(1) } else { per },
             tier: opts.tier,
             features: feats,
             tolerated: tol,
